@@ -26,7 +26,9 @@ def check(run: Run) -> None:
     run.rule("C15.R3", "wrapper case guarded by func is Name 'MetaData'; cleaner removes only MetaData(x, {}) with exactly two args, on the visited node")
     run.rule("C15.R4", "remove_empty_metadata does not mutate the ast it is given (deep copy, or a copy-on-write transformer)")
     ctx = TermCtx(m, max_depth=3)
-    ex_cls = m.find_class("_extract_metadata", in_module="func_adl.ast.meta_data")
+    from ..lib import used_visitor
+
+    ex_cls = used_visitor(m, ctx, m.find_func("extract_metadata", in_module="func_adl.ast.meta_data"), True)
     vc = ex_cls.methods.get("visit_Call")
     if vc is None:
         raise AnalysisError("anchor vanished: _extract_metadata.visit_Call")
@@ -77,6 +79,21 @@ def check(run: Run) -> None:
     if any(p.kind != "return" for p, _ in fa.cfg.exit.pred):
         run.fail("C15.R2", vc, vc.node, "a path of visit_Call returns None (the call is deleted)")
 
+    # every dispatch entry of the extractor, inherited ones included, visits what it embeds in its result
+    from ..visitors import dispatch_entries, unvisited_in_entry
+
+    ectx = TermCtx(m, max_depth=3)
+    for ent in dispatch_entries(m, ex_cls):
+        for s_, leaked, whole in unvisited_in_entry(ectx, ent):
+            if ent is vc and leaked == ("index", ("attr", nodep, "args"), 1):
+                continue  # the wrapper's dictionary literal is consumed, not embedded
+            run.fail("C15.R2", ent, s_, f"{ent.name} puts {show(leaked)} into its result without visiting it: MetaData wrappers inside it (arguments, keyword values, lambda bodies) are collected or removed only in part", "self.generic_visit(node)", show(whole)[:200])
+    for base_m in [f for f in m.all_methods(ex_cls).values() if f.name == "visit_Call" and f is not vc]:
+        fb = ectx.analysis(base_m)
+        gvs = [c for c in calls_in(base_m) if isinstance(c.func, ast.Attribute) and c.func.attr == "generic_visit"]
+        rets_ok = all(all(a[0] in ("gvisit", "app") for a in unphi_terms(strip_sites(fb.term_of(s_.value, n_)))) for s_, n_ in fb.returns())
+        run.check(bool(gvs) and rets_ok, "C15.R2", base_m, base_m.node, "the inherited visit_Call falls back to generic_visit (all children, keywords included)", "the base visit_Call does not traverse every child of calls it does not dispatch: wrappers in keyword values / nested arguments are missed")
+
     # driver
     drv = m.find_func("extract_metadata", in_module="func_adl.ast.meta_data")
     fd = ctx.analysis(drv)
@@ -91,7 +108,9 @@ def check(run: Run) -> None:
 
     # ---------------- cleaner
     rem = m.find_func("remove_empty_metadata", in_module="func_adl.ast.meta_data")
-    cleaners = [c for c in m.classes.values() if c.parent_func is rem and m.is_transformer(c)]
+    from ..lib import used_visitor
+
+    cleaners = [used_visitor(m, ctx, rem, True)]
     if len(cleaners) != 1 or "visit_Call" not in cleaners[0].methods:
         raise AnalysisError("remove_empty_metadata no longer contains one NodeTransformer with visit_Call")
     cc = cleaners[0]
